@@ -18,13 +18,15 @@ def mon_requests(tr, sc):
     fedsub = {}           # id -> codes of the last SUBACK fed for it
     inbuf = b""
     plans, hs_need = [], 0      # queued dial replies; CONNACK bytes the handshake still takes from the stream
+    extras = []                 # per queued dial reply: the bytes behind its first four
     live, prebytes = False, b""
     for i, (op, lines) in enumerate(tr):
         f = op.split()
         if f and f[0] == "dial":
             plans.append(len(SC.unhex(f[2])) if f[1] == "ok" and len(f) > 2 else ("block" if f[1] == "block" else None))
+            extras.append(SC.unhex(f[2])[4:] if f[1] == "ok" and len(f) > 2 else b"")      # what comes in one segment with the CONNACK
         if f and f[0] == "brk":
-            plans, prebytes = [], b""
+            plans, prebytes, extras = [], b"", []
         if f and f[0] == "adopt":
             pending, sub_id = {}, {}
         if f and f[0] == "call" and "noclient" not in lines:
@@ -56,17 +58,21 @@ def mon_requests(tr, sc):
             if l.startswith("ev dial fail"):
                 while plans and plans[0] == "block":
                     plans.pop(0)
+                    extras.pop(0)
                 if plans:
                     plans.pop(0)
+                    extras.pop(0)
             if l.startswith("ev dial ok"):
                 while plans and plans[0] == "block":
                     plans.pop(0)
+                    extras.pop(0)
                 n = plans.pop(0) if plans else 4
+                extra = extras.pop(0) if extras else b""
                 hs_need = max(0, 4 - (n if n is not None else 4))
                 live = True
                 take = min(hs_need, len(prebytes))
                 hs_need -= take
-                inbuf, prebytes = prebytes[take:], b""
+                inbuf, prebytes = extra + prebytes[take:], b""
                 fr, rest, bad = mq.frames(inbuf)
                 inbuf = b"" if bad else rest
                 for pk in fr:
